@@ -1,5 +1,5 @@
 import ExprModel.VM.Step
-import ExprModel.Proofs.CompileWf
+import ExprModel.Proofs.BcCompile
 /-
 C05, part 10 (stack balance, partial): for the straight-line sub-language (literals, unary operators, arithmetic and
 ordering operators) running the compiled fragment on the byte-level VM model from ANY stack `st` either fails with
@@ -12,49 +12,49 @@ namespace ExprModel
 /-- the program the VM runs: the encoded bytes and the constant pool -/
 def Prog.ofCode (is : List Instr) (consts : Array Val) : Prog := { code := (encodeAll is).toArray, consts := consts }
 
-theorem fetch_byte (pre : List Instr) (i : Instr) (post : List Instr) (consts : Array Val) (k : Nat) :
+theorem bc_fetch_byte (pre : List Instr) (i : Instr) (post : List Instr) (consts : Array Val) (k : Nat) :
     (Prog.ofCode (pre ++ i :: post) consts).code[codeSize pre + k]? = (i.encode ++ encodeAll post)[k]? := by
   simp only [Prog.ofCode, List.getElem?_toArray, encodeAll_append, encodeAll_cons]
   rw [List.getElem?_append_right (by rw [codeSize_eq_length]; omega), codeSize_eq_length]
   congr 1; omega
 
-theorem fetch_op (pre : List Instr) (i : Instr) (post : List Instr) (consts : Array Val) :
+theorem bc_fetch_op (pre : List Instr) (i : Instr) (post : List Instr) (consts : Array Val) :
     (Prog.ofCode (pre ++ i :: post) consts).code[codeSize pre]? = some i.op.code := by
-  have := fetch_byte pre i post consts 0
+  have := bc_fetch_byte pre i post consts 0
   simp only [Nat.add_zero] at this
   rw [this]; unfold Instr.encode; split <;> rfl
 
-theorem fetch_arg (pre : List Instr) (i : Instr) (post : List Instr) (consts : Array Val) (ha : i.op.hasArg = true) :
+theorem bc_fetch_arg (pre : List Instr) (i : Instr) (post : List Instr) (consts : Array Val) (ha : i.op.hasArg = true) :
     (Prog.ofCode (pre ++ i :: post) consts).code[codeSize pre + 1]? = some (i.arg % 256) ∧
     (Prog.ofCode (pre ++ i :: post) consts).code[codeSize pre + 1 + 1]? = some (i.arg / 256 % 256) := by
-  have h1 := fetch_byte pre i post consts 1
-  have h2 := fetch_byte pre i post consts 2
+  have h1 := bc_fetch_byte pre i post consts 1
+  have h2 := bc_fetch_byte pre i post consts 2
   simp only [Instr.encode, ha, if_true, List.cons_append, List.nil_append] at h1 h2
   exact ⟨by rw [h1]; rfl, by rw [show codeSize pre + 1 + 1 = codeSize pre + 2 by omega, h2]; rfl⟩
 
 /-- `n` iterations of the dispatch loop's body -/
-def runN (c : Cfg) (p : Prog) : Nat → VM → RV VM
+def stepN (c : Cfg) (p : Prog) : Nat → VM → RV VM
   | 0, s => .ok s
   | n + 1, s =>
     match step c p s with
-    | .ok s' => runN c p n s'
+    | .ok s' => stepN c p n s'
     | .error e => .error e
 
-theorem runN_add (c : Cfg) (p : Prog) : ∀ (a b : Nat) (s : VM),
-    runN c p (a + b) s = (match runN c p a s with
-      | .ok s' => runN c p b s'
+theorem stepN_add (c : Cfg) (p : Prog) : ∀ (a b : Nat) (s : VM),
+    stepN c p (a + b) s = (match stepN c p a s with
+      | .ok s' => stepN c p b s'
       | .error e => .error e)
-  | 0, b, s => by simp [runN]
+  | 0, b, s => by simp [stepN]
   | a + 1, b, s => by
     have : a + 1 + b = (a + b) + 1 := by omega
-    rw [this, runN, runN]
+    rw [this, stepN, stepN]
     cases step c p s with
-    | ok s' => exact runN_add c p a b s'
+    | ok s' => exact stepN_add c p a b s'
     | error e => rfl
 
 /-- outcome of running a fragment that was entered with stack `st` and scopes `sc`: it ends at `target` with one
     more value and the same scopes, or fails with an ordinary run-time error -/
-def Bal (st : List Val) (sc : List Scope) (target : Nat) : RV VM → Prop
+def StackBal (st : List Val) (sc : List Scope) (target : Nat) : RV VM → Prop
   | .ok s' => s'.ip = target ∧ (∃ v, s'.stack = v :: st) ∧ s'.scopes = sc
   | .error (e, _) => e ≠ .underflow ∧ e ≠ .badop ∧ e ≠ .fuel
 
@@ -62,19 +62,19 @@ def Bal (st : List Val) (sc : List Scope) (target : Nat) : RV VM → Prop
 
 theorem step_push_bal (c : Cfg) (p : Prog) (s : VM) (lo hi : Nat) (v : Val)
     (hcode : p.code[s.ip]? = some Op.push.code) (h1 : p.code[s.ip + 1]? = some lo) (h2 : p.code[s.ip + 1 + 1]? = some hi)
-    (hc : p.consts[lo + 256 * hi]? = some v) : Bal s.stack s.scopes (s.ip + 3) (step c p s) := by
+    (hc : p.consts[lo + 256 * hi]? = some v) : StackBal s.stack s.scopes (s.ip + 3) (step c p s) := by
   have : step c p s = .ok { s with pp := s.ip, ip := s.ip + 1 + 2, stack := v :: s.stack } := by
     simp [step, hcode, Op.ofCode_code, readConst, readArg, h1, h2, hc, VM.push, bind, Except.bind, pure, Except.pure]
   rw [this]; exact ⟨rfl, ⟨v, rfl⟩, rfl⟩
 
 theorem step_lit_bal (c : Cfg) (p : Prog) (s : VM) (op : Op) (hop : op = .nil_ ∨ op = .true_ ∨ op = .false_)
-    (hcode : p.code[s.ip]? = some op.code) : Bal s.stack s.scopes (s.ip + 1) (step c p s) := by
+    (hcode : p.code[s.ip]? = some op.code) : StackBal s.stack s.scopes (s.ip + 1) (step c p s) := by
   rcases hop with rfl | rfl | rfl <;>
-    simp [step, hcode, Op.ofCode_code, VM.push, pure, Except.pure, Bal]
+    simp [step, hcode, Op.ofCode_code, VM.push, pure, Except.pure, StackBal]
 
 theorem step_unop_bal (c : Cfg) (p : Prog) (s : VM) (op : Op) (hop : op = .not_ ∨ op = .negate)
     (hcode : p.code[s.ip]? = some op.code) (v : Val) (st : List Val) (hs : s.stack = v :: st) :
-    Bal st s.scopes (s.ip + 1) (step c p s) := by
+    StackBal st s.scopes (s.ip + 1) (step c p s) := by
   rcases hop with rfl | rfl
   · have : step c p s = (match notV v with
         | .ok r => .ok { s with pp := s.ip, ip := s.ip + 1, stack := r :: st }
@@ -82,7 +82,7 @@ theorem step_unop_bal (c : Cfg) (p : Prog) (s : VM) (op : Op) (hop : op = .not_ 
       simp [step, hcode, Op.ofCode_code, VM.pop, hs, VM.push, bind, Except.bind, pure, Except.pure, liftR]
       cases notV v <;> rfl
     rw [this]
-    cases v <;> simp [notV, Bal]
+    cases v <;> simp [notV, StackBal]
   · have : step c p s = (match negV v with
         | .ok r => .ok { s with pp := s.ip, ip := s.ip + 1, stack := r :: st }
         | .error e => .error (e, { s with pp := s.ip, ip := s.ip + 1, stack := st })) := by
@@ -90,7 +90,7 @@ theorem step_unop_bal (c : Cfg) (p : Prog) (s : VM) (op : Op) (hop : op = .not_ 
       cases negV v <;> rfl
     rw [this]
     unfold negV
-    cases negateVal v <;> simp [Bal]
+    cases negateVal v <;> simp [StackBal]
 
 theorem binHelper_err (h : Helper) (a b : Val) (e : ErrClass) (he : binHelper h a b = .error e) :
     e ≠ .underflow ∧ e ≠ .badop ∧ e ≠ .fuel := by
@@ -102,7 +102,7 @@ theorem binHelper_err (h : Helper) (a b : Val) (e : ErrClass) (he : binHelper h 
 
 theorem step_binop_bal (c : Cfg) (p : Prog) (s : VM) (op : Op) (h : Helper) (hop : binOpOf op = some h)
     (hcode : p.code[s.ip]? = some op.code) (a b : Val) (st : List Val) (hs : s.stack = b :: a :: st) :
-    Bal st s.scopes (s.ip + 1) (step c p s) := by
+    StackBal st s.scopes (s.ip + 1) (step c p s) := by
   have key : step c p s = (match binHelper h a b with
       | .ok r => .ok { s with pp := s.ip, ip := s.ip + 1, stack := r :: st }
       | .error e => .error (e, { s with pp := s.ip, ip := s.ip + 1, stack := st })) := by
@@ -118,31 +118,31 @@ theorem step_binop_bal (c : Cfg) (p : Prog) (s : VM) (op : Op) (h : Helper) (hop
 /-! ### the straight-line sub-language -/
 
 /-- literals, unary operators, and the binary operators compiled to one arithmetic / ordering opcode -/
-inductive SL : Node → Prop
-  | nil (m : Meta) : SL (.nil m)
-  | bool (m : Meta) (b : Bool) : SL (.bool m b)
-  | int (m : Meta) (v : Int) : SL (.int m v)
-  | float (m : Meta) (v : UInt64) : SL (.float m v)
-  | str (m : Meta) (s : String) : SL (.str m s)
-  | const (m : Meta) (v : Val) : SL (.const m v)
-  | unary (m : Meta) (op : String) (x : Node) : SL x → SL (.unary m op x)
+inductive StraightLine : Node → Prop
+  | nil (m : Meta) : StraightLine (.nil m)
+  | bool (m : Meta) (b : Bool) : StraightLine (.bool m b)
+  | int (m : Meta) (v : Int) : StraightLine (.int m v)
+  | float (m : Meta) (v : UInt64) : StraightLine (.float m v)
+  | str (m : Meta) (s : String) : StraightLine (.str m s)
+  | const (m : Meta) (v : Val) : StraightLine (.const m v)
+  | unary (m : Meta) (op : String) (x : Node) : StraightLine x → StraightLine (.unary m op x)
   | binary (m : Meta) (op : String) (l r : Node) (o : Op) (h : Helper) :
-      binSimpleOp op = some [o] → binOpOf o = some h → SL l → SL r → SL (.binary m op l r)
+      binSimpleOp op = some [o] → binOpOf o = some h → StraightLine l → StraightLine r → StraightLine (.binary m op l r)
 
 /-- the property of one compiled fragment: placed anywhere (`pre`, `post`) in a program whose pool extends the
     fragment's, entered at its first byte with any stack and scopes, it is stack-balanced -/
-def Balanced (code : List LInstr) (consts : Array Val) : Prop :=
+def StackBalanced (code : List LInstr) (consts : Array Val) : Prop :=
   ∀ (pre post : List Instr) (vc : Cfg) (s : VM), s.ip = codeSize pre →
-    Bal s.stack s.scopes (codeSize pre + lsize code)
-      (runN vc (Prog.ofCode (pre ++ instrs code ++ post) consts) (instrs code).length s)
+    StackBal s.stack s.scopes (codeSize pre + lsize code)
+      (stepN vc (Prog.ofCode (pre ++ instrs code ++ post) consts) (instrs code).length s)
 
 theorem balanced_push {consts : Array Val} {k : Nat} (l : Loc) (hk : AnyAt consts k) (h16 : k < 65536) :
-    Balanced [li l .push k] consts := by
+    StackBalanced [li l .push k] consts := by
   intro pre post vc s hip
   obtain ⟨v, hv⟩ := hk
-  have hop := fetch_op pre ⟨.push, k⟩ post consts
-  have harg := fetch_arg pre ⟨.push, k⟩ post consts rfl
-  simp only [instrs_cons, instrs_nil, li_instr, List.length_singleton, runN, List.append_assoc, List.cons_append,
+  have hop := bc_fetch_op pre ⟨.push, k⟩ post consts
+  have harg := bc_fetch_arg pre ⟨.push, k⟩ post consts rfl
+  simp only [instrs_cons, instrs_nil, li_instr, List.length_singleton, stepN, List.append_assoc, List.cons_append,
     List.nil_append]
   have hb := step_push_bal vc (Prog.ofCode (pre ++ ⟨.push, k⟩ :: post) consts) s (k % 256) (k / 256 % 256) v
     (by rw [hip]; exact hop) (by rw [hip]; exact harg.1) (by rw [hip]; exact harg.2)
@@ -156,11 +156,11 @@ theorem balanced_push {consts : Array Val} {k : Nat} (l : Loc) (hk : AnyAt const
   | error e => rw [hst] at hb; exact hb
 
 theorem balanced_lit {consts : Array Val} (l : Loc) (op : Op) (hop : op = .nil_ ∨ op = .true_ ∨ op = .false_) :
-    Balanced [li l op] consts := by
+    StackBalanced [li l op] consts := by
   intro pre post vc s hip
   have hna : op.hasArg = false := by rcases hop with rfl | rfl | rfl <;> rfl
-  have hfo := fetch_op pre ⟨op, 0⟩ post consts
-  simp only [instrs_cons, instrs_nil, li_instr, List.length_singleton, runN, List.append_assoc, List.cons_append,
+  have hfo := bc_fetch_op pre ⟨op, 0⟩ post consts
+  simp only [instrs_cons, instrs_nil, li_instr, List.length_singleton, stepN, List.append_assoc, List.cons_append,
     List.nil_append]
   have hb := step_lit_bal vc (Prog.ofCode (pre ++ ⟨op, 0⟩ :: post) consts) s op hop (by rw [hip]; exact hfo)
   have hsz : codeSize pre + lsize [li l op] = s.ip + 1 := by
@@ -172,20 +172,20 @@ theorem balanced_lit {consts : Array Val} (l : Loc) (op : Op) (hop : op = .nil_ 
 
 /-- `x; op` for a unary opcode -/
 theorem balanced_unop {consts : Array Val} {cx : List LInstr} (l : Loc) (op : Op) (hop : op = .not_ ∨ op = .negate)
-    (hx : Balanced cx consts) : Balanced (cx ++ [li l op]) consts := by
+    (hx : StackBalanced cx consts) : StackBalanced (cx ++ [li l op]) consts := by
   intro pre post vc s hip
   have hna : op.hasArg = false := by rcases hop with rfl | rfl <;> rfl
   have hprog : pre ++ instrs (cx ++ [li l op]) ++ post = pre ++ instrs cx ++ (⟨op, 0⟩ :: post) := by simp
   have hlen : (instrs (cx ++ [li l op])).length = (instrs cx).length + 1 := by simp
-  rw [hprog, hlen, runN_add]
+  rw [hprog, hlen, stepN_add]
   have h1 := hx pre (⟨op, 0⟩ :: post) vc s hip
-  cases hr : runN vc (Prog.ofCode (pre ++ instrs cx ++ (⟨op, 0⟩ :: post)) consts) (instrs cx).length s with
+  cases hr : stepN vc (Prog.ofCode (pre ++ instrs cx ++ (⟨op, 0⟩ :: post)) consts) (instrs cx).length s with
   | error e => rw [hr] at h1; exact h1
   | ok s1 =>
     rw [hr] at h1
     obtain ⟨hip1, ⟨v, hst1⟩, hsc1⟩ := h1
-    simp only [runN]
-    have hfo := fetch_op (pre ++ instrs cx) ⟨op, 0⟩ post consts
+    simp only [stepN]
+    have hfo := bc_fetch_op (pre ++ instrs cx) ⟨op, 0⟩ post consts
     have hip1' : s1.ip = codeSize (pre ++ instrs cx) := by rw [hip1]; simp [lsize_eq]
     have hb := step_unop_bal vc (Prog.ofCode (pre ++ instrs cx ++ (⟨op, 0⟩ :: post)) consts) s1 op hop
       (by rw [hip1']; exact hfo) v s.stack hst1
@@ -198,34 +198,34 @@ theorem balanced_unop {consts : Array Val} {cx : List LInstr} (l : Loc) (op : Op
 
 /-- `l; r; op` for an arithmetic / ordering opcode -/
 theorem balanced_binop {consts : Array Val} {cl cr : List LInstr} (l : Loc) (op : Op) (h : Helper)
-    (hop : binOpOf op = some h) (hl : Balanced cl consts) (hr : Balanced cr consts) :
-    Balanced (cl ++ cr ++ [li l op]) consts := by
+    (hop : binOpOf op = some h) (hl : StackBalanced cl consts) (hr : StackBalanced cr consts) :
+    StackBalanced (cl ++ cr ++ [li l op]) consts := by
   intro pre post vc s hip
   have hna : op.hasArg = false := by cases op <;> simp [binOpOf] at hop <;> rfl
   have hprog : pre ++ instrs (cl ++ cr ++ [li l op]) ++ post = pre ++ instrs cl ++ (instrs cr ++ ⟨op, 0⟩ :: post) := by simp
   have hlen : (instrs (cl ++ cr ++ [li l op])).length = (instrs cl).length + ((instrs cr).length + 1) := by
     simp <;> omega
-  rw [hprog, hlen, runN_add]
+  rw [hprog, hlen, stepN_add]
   have h1 := hl pre (instrs cr ++ ⟨op, 0⟩ :: post) vc s hip
-  cases hr1 : runN vc (Prog.ofCode (pre ++ instrs cl ++ (instrs cr ++ ⟨op, 0⟩ :: post)) consts) (instrs cl).length s with
+  cases hr1 : stepN vc (Prog.ofCode (pre ++ instrs cl ++ (instrs cr ++ ⟨op, 0⟩ :: post)) consts) (instrs cl).length s with
   | error e => rw [hr1] at h1; exact h1
   | ok s1 =>
     rw [hr1] at h1
     obtain ⟨hip1, ⟨a, hst1⟩, hsc1⟩ := h1
     simp only
-    rw [runN_add]
+    rw [stepN_add]
     have hprog2 : pre ++ instrs cl ++ (instrs cr ++ ⟨op, 0⟩ :: post) = (pre ++ instrs cl) ++ instrs cr ++ (⟨op, 0⟩ :: post) := by
       simp
     rw [hprog2]
     have hip1' : s1.ip = codeSize (pre ++ instrs cl) := by rw [hip1]; simp [lsize_eq]
     have h2 := hr (pre ++ instrs cl) (⟨op, 0⟩ :: post) vc s1 hip1'
-    cases hr2 : runN vc (Prog.ofCode ((pre ++ instrs cl) ++ instrs cr ++ (⟨op, 0⟩ :: post)) consts) (instrs cr).length s1 with
+    cases hr2 : stepN vc (Prog.ofCode ((pre ++ instrs cl) ++ instrs cr ++ (⟨op, 0⟩ :: post)) consts) (instrs cr).length s1 with
     | error e => rw [hr2] at h2; exact h2
     | ok s2 =>
       rw [hr2] at h2
       obtain ⟨hip2, ⟨b, hst2⟩, hsc2⟩ := h2
-      simp only [runN]
-      have hfo := fetch_op ((pre ++ instrs cl) ++ instrs cr) ⟨op, 0⟩ post consts
+      simp only [stepN]
+      have hfo := bc_fetch_op ((pre ++ instrs cl) ++ instrs cr) ⟨op, 0⟩ post consts
       have hip2' : s2.ip = codeSize ((pre ++ instrs cl) ++ instrs cr) := by rw [hip2]; simp [lsize_eq]; omega
       have hb := step_binop_bal vc (Prog.ofCode ((pre ++ instrs cl) ++ instrs cr ++ (⟨op, 0⟩ :: post)) consts) s2 op h hop
         (by rw [hip2']; exact hfo) a b s.stack (by rw [hst2, hst1])
@@ -236,8 +236,8 @@ theorem balanced_binop {consts : Array Val} {cl cr : List LInstr} (l : Loc) (op 
       | ok s' => rw [hst] at hb; exact hb
       | error e => rw [hst] at hb; exact hb
 
-theorem Balanced.mono {code : List LInstr} {c c' : Array Val} (h : ∀ c'', Ext c c'' → Balanced code c'') (e : Ext c c') :
-    ∀ c'', Ext c' c'' → Balanced code c'' := fun c'' e' => h c'' (e.trans e')
+theorem StackBalanced.mono {code : List LInstr} {c c' : Array Val} (h : ∀ c'', PoolExt c c'' → StackBalanced code c'') (e : PoolExt c c') :
+    ∀ c'', PoolExt c' c'' → StackBalanced code c'' := fun c'' e' => h c'' (e.trans e')
 
 theorem binSimple_not_special {op : String} {o : Op} (h : binSimpleOp op = some [o]) :
     (op == "==") = false ∧ (op == "or" || op == "||") = false ∧ (op == "and" || op == "&&") = false := by
@@ -256,9 +256,9 @@ theorem binSimple_not_special {op : String} {o : Op} (h : binSimpleOp op = some 
       rcases hb with rfl | rfl <;> simp [binSimpleOp] at h
 
 /-- every straight-line tree compiles to a stack-balanced fragment, against every pool extending its own -/
-theorem balanced_sl (cfg : CompCfg) {n : Node} (hsl : SL n) :
+theorem balanced_sl (cfg : CompCfg) {n : Node} (hsl : StraightLine n) :
     ∀ (p0 : Pool) (code : List LInstr) (p1 : Pool), PoolOk p0 → compileNode cfg n p0 = .ok (code, p1) →
-      ∀ consts, Ext p1.consts consts → Balanced code consts := by
+      ∀ consts, PoolExt p1.consts consts → StackBalanced code consts := by
   induction hsl with
   | nil m =>
     intro p0 code p1 _ h consts _
@@ -275,88 +275,88 @@ theorem balanced_sl (cfg : CompCfg) {n : Node} (hsl : SL n) :
   | int m v =>
     intro p0 code p1 hp h consts he
     simp only [compileNode] at h
-    obtain ⟨⟨k, p2⟩, h1, h⟩ := bind_ok h
-    fin h
+    obtain ⟨⟨k, p2⟩, h1, h⟩ := cr_bind_ok h
+    cr_fin h
     obtain ⟨hp2, _, hk⟩ := mkConst_any hp h1
     have := (mkConst_index_lt hp h1)
     exact balanced_push _ (hk.mono he) (by omega)
   | float m v =>
     intro p0 code p1 hp h consts he
     simp only [compileNode] at h
-    obtain ⟨⟨k, p2⟩, h1, h⟩ := bind_ok h
-    fin h
+    obtain ⟨⟨k, p2⟩, h1, h⟩ := cr_bind_ok h
+    cr_fin h
     obtain ⟨hp2, _, hk⟩ := mkConst_any hp h1
     have := (mkConst_index_lt hp h1)
     exact balanced_push _ (hk.mono he) (by omega)
   | str m s =>
     intro p0 code p1 hp h consts he
     simp only [compileNode] at h
-    obtain ⟨⟨k, p2⟩, h1, h⟩ := bind_ok h
-    fin h
+    obtain ⟨⟨k, p2⟩, h1, h⟩ := cr_bind_ok h
+    cr_fin h
     obtain ⟨hp2, _, hk⟩ := mkConst_any hp h1
     have := (mkConst_index_lt hp h1)
     exact balanced_push _ (hk.mono he) (by omega)
   | const m v =>
     intro p0 code p1 hp h consts he
     simp only [compileNode] at h
-    obtain ⟨⟨k, p2⟩, h1, h⟩ := bind_ok h
-    fin h
+    obtain ⟨⟨k, p2⟩, h1, h⟩ := cr_bind_ok h
+    cr_fin h
     obtain ⟨hp2, _, hk⟩ := mkConst_any hp h1
     have := (mkConst_index_lt hp h1)
     exact balanced_push _ (hk.mono he) (by omega)
   | unary m op x _ ih =>
     intro p0 code p1 hp h consts he
     simp only [compileNode] at h
-    obtain ⟨⟨cx, p2⟩, h1, h⟩ := bind_ok h
+    obtain ⟨⟨cx, p2⟩, h1, h⟩ := cr_bind_ok h
     dsimp only at h
     split at h
-    · fin h; exact balanced_unop _ _ (Or.inl rfl) (ih _ _ _ hp h1 consts he)
+    · cr_fin h; exact balanced_unop _ _ (Or.inl rfl) (ih _ _ _ hp h1 consts he)
     · split at h
-      · fin h; exact ih _ _ _ hp h1 consts he
+      · cr_fin h; exact ih _ _ _ hp h1 consts he
       · split at h
-        · fin h; exact balanced_unop _ _ (Or.inr rfl) (ih _ _ _ hp h1 consts he)
+        · cr_fin h; exact balanced_unop _ _ (Or.inr rfl) (ih _ _ _ hp h1 consts he)
         · cases h
   | binary m op l r o hh hbs hbo _ _ ihl ihr =>
     intro p0 code p1 hp h consts he
     obtain ⟨e1, e2, e3⟩ := binSimple_not_special hbs
     simp only [compileNode, e1, e2, e3, hbs, Bool.false_eq_true, if_false] at h
-    obtain ⟨⟨cl, p2⟩, h1, h⟩ := bind_ok h
-    obtain ⟨⟨cr, p3⟩, h2, h⟩ := bind_ok h
+    obtain ⟨⟨cl, p2⟩, h1, h⟩ := cr_bind_ok h
+    obtain ⟨⟨cr, p3⟩, h2, h⟩ := cr_bind_ok h
     dsimp only at h2 h
-    fin h
-    have rl := compileNode_good cfg l _ _ _ hp h1
-    have rr := compileNode_good cfg r _ _ _ rl.1 h2
+    cr_fin h
+    have rl := compileNode_wf cfg l _ _ _ hp h1
+    have rr := compileNode_wf cfg r _ _ _ rl.1 h2
     have := balanced_binop m.loc o hh hbo (ihl _ _ _ hp h1 consts (rr.2.1.trans he)) (ihr _ _ _ rl.1 h2 consts he)
     simpa using this
 
 /-! ### whole runs -/
 
-theorem step_oob (c : Cfg) (p : Prog) (s : VM) (h : p.code.size ≤ s.ip) :
+theorem bc_step_oob (c : Cfg) (p : Prog) (s : VM) (h : p.code.size ≤ s.ip) :
     step c p s = .error (.badop, { s with pp := s.ip, ip := s.ip + 1 }) := by
   have hnone : p.code[s.ip]? = none := Array.getElem?_eq_none h
   have h255 : Op.ofCode? 255 = none := by decide
   simp [step, hnone, h255, failV]
 
-theorem step_ip_lt (c : Cfg) (p : Prog) (s : VM) (h : ∀ s', step c p s ≠ .error (.badop, s')) : s.ip < p.code.size := by
+theorem bc_step_ip_lt (c : Cfg) (p : Prog) (s : VM) (h : ∀ s', step c p s ≠ .error (.badop, s')) : s.ip < p.code.size := by
   rcases Nat.lt_or_ge s.ip p.code.size with h' | h'
   · exact h'
-  · exact absurd (step_oob c p s h') (h _)
+  · exact absurd (bc_step_oob c p s h') (h _)
 
-/-- the dispatch loop follows `runN` as long as no step reports a malformed program -/
-theorem loop_of_runN (c : Cfg) (p : Prog) : ∀ (n : Nat) (s : VM) (fuel : Nat), n ≤ fuel →
-    match runN c p n s with
+/-- the dispatch loop follows `stepN` as long as no step reports a malformed program -/
+theorem loop_of_stepN (c : Cfg) (p : Prog) : ∀ (n : Nat) (s : VM) (fuel : Nat), n ≤ fuel →
+    match stepN c p n s with
     | .ok s' => loop c p fuel s = loop c p (fuel - n) s'
     | .error (e, s') => e ≠ .badop → loop c p fuel s = (.error e, s')
-  | 0, s, fuel, _ => by simp [runN]
+  | 0, s, fuel, _ => by simp [stepN]
   | n + 1, s, fuel, hf => by
     obtain ⟨f, rfl⟩ : ∃ f, fuel = f + 1 := ⟨fuel - 1, by omega⟩
-    simp only [runN]
+    simp only [stepN]
     cases hst : step c p s with
     | ok s1 =>
-      have hlt : s.ip < p.code.size := step_ip_lt c p s (by intro s' h; rw [hst] at h; cases h)
-      have ih := loop_of_runN c p n s1 f (by omega)
+      have hlt : s.ip < p.code.size := bc_step_ip_lt c p s (by intro s' h; rw [hst] at h; cases h)
+      have ih := loop_of_stepN c p n s1 f (by omega)
       simp only
-      cases hr : runN c p n s1 with
+      cases hr : stepN c p n s1 with
       | ok s' =>
         rw [hr] at ih
         simp only [loop, hlt, if_true, hst]
@@ -372,7 +372,7 @@ theorem loop_of_runN (c : Cfg) (p : Prog) : ∀ (n : Nat) (s : VM) (fuel : Nat),
       obtain ⟨e, s'⟩ := es
       simp only
       intro he
-      have hlt : s.ip < p.code.size := step_ip_lt c p s (by
+      have hlt : s.ip < p.code.size := bc_step_ip_lt c p s (by
         intro s'' h; rw [hst] at h
         simp only [Except.error.injEq, Prod.mk.injEq] at h
         exact he h.1)
@@ -380,7 +380,7 @@ theorem loop_of_runN (c : Cfg) (p : Prog) : ∀ (n : Nat) (s : VM) (fuel : Nat),
 
 /-- a balanced program, run from the prologue: success leaves an empty stack and no scope; failures are
     ordinary run-time errors -/
-theorem run_of_balanced {code : List LInstr} {consts : Array Val} (hb : Balanced code consts) (vc : Cfg)
+theorem run_of_balanced {code : List LInstr} {consts : Array Val} (hb : StackBalanced code consts) (vc : Cfg)
     (fuel : Nat) (hf : (instrs code).length < fuel) :
     match (run vc (Prog.ofCode (instrs code) consts) fuel).1 with
     | .ok _ => (run vc (Prog.ofCode (instrs code) consts) fuel).2.stack = [] ∧
@@ -388,9 +388,9 @@ theorem run_of_balanced {code : List LInstr} {consts : Array Val} (hb : Balanced
     | .error e => e ≠ .underflow ∧ e ≠ .badop ∧ e ≠ .fuel := by
   have h0 := hb [] [] vc (prologue vc {}) rfl
   simp only [List.nil_append, List.append_nil, codeSize_nil, Nat.zero_add] at h0
-  have hl := loop_of_runN vc (Prog.ofCode (instrs code) consts) (instrs code).length (prologue vc {}) fuel (by omega)
+  have hl := loop_of_stepN vc (Prog.ofCode (instrs code) consts) (instrs code).length (prologue vc {}) fuel (by omega)
   unfold run runOn
-  cases hr : runN vc (Prog.ofCode (instrs code) consts) (instrs code).length (prologue vc {}) with
+  cases hr : stepN vc (Prog.ofCode (instrs code) consts) (instrs code).length (prologue vc {}) with
   | ok s' =>
     rw [hr] at h0 hl
     obtain ⟨hip, ⟨v, hst⟩, hsc⟩ := h0
